@@ -313,7 +313,7 @@ pub fn run(ctx: &Ctx, id: &str) -> i32 {
         report.rule = "every public operation {new, configure, read_card, begin, commit, cancel, and begin / commit / cancel while another transaction is open} is first run fault-free to number its terminal->client packets (handshake, acks, intermediate packets, clean-up exchanges included); then re-run with one fault at every position x kind {close, a regular reply followed by an immediate close (the client notices while writing its acknowledgement), garbage, NACK, foreign control field, silence, wrong serial (reversed, a prefix of the configured one padded with NUL, blank, spaces, first character only, first / last character changed, halves swapped) / bare completion (system-info reply), a well-formed Abort where the reply set has none (registration reply), and each of 7 well-formed packets (abort, completion, intermediate status, status information, print line, set-time, acknowledgement) wherever it lies outside the exchange's reply set} and with refused connection attempts; all pairs of faults for the shorter operations and sampled pairs/triples otherwise; each followed by a further operation. Also: a terminal reporting the serial in the other letter case, and 1 ms..1 s delays between and inside packets (non-faults: the operation must succeed without reconnecting). Also the terminal closing the idle connection before the operation or before the follow-up operation (the next command write fails), alone and followed by a second fault. Oracle: connection checker R1-R6 (DESIGN D.4) over the per-connection event log; R6 = after the terminal closed a connection, the operations that follow make a new connection attempt. Non-trivial = every faulty run; single faults are a duplicate-free enumeration, multi-fault runs hashed.".into();
         report.assumptions = vec!["after injecting a fault the simulated terminal is passive on that connection, so every byte recorded there afterwards was written by the client".into(), "silence during the handshake is bounded by the fix of finding D6 (otherwise those runs end at the watchdog and are attributed to C10)".into()];
     } else {
-        report.rule = "every public operation x (a) a one-shot silence at every terminal->client packet position (fault-free numbering), (b) a persistent silence at every distinct (exchange kind, packet) point incl. the handshake, (c) a connect that never resolves / always never resolves / is always refused, (d) pairs: a one-shot silence followed by a second silence / close / garbage / connect stall on the retried attempt, and silence on a slow terminal, (f) a garbage / NACK / foreign / unexpected-but-well-formed packet (or a regular reply followed by a close) at every position after which the terminal stays silent and never closes its side, (i) a silence / close / garbage that creeps forward by 1-3 packets with every re-connection (each attempt gets further than the one before, none completes), (h) unsolicited bytes on the idle connection just before the operation (the first byte(s) of a packet and then nothing more with the connection kept open; a complete intermediate status), (g) the cached connection fails at once (idle close / close / NACK / garbage / reply-then-close) and every new connection is refused, stalls, or breaks at one point of its handshake (silence / close / garbage / NACK / wrong serial), (e) finite pauses of 1..61 s at every position and of 3..59 s inside the handshake of a re-connection for read_card_timeout in {0,5,15,30,56,57,58,200}; read_card_timeout 0..255 exhaustively with a terminal that stays silent for exactly its own read-card time-out and then answers 'abort 6C' 100 ms later (must be waited for: NoCardPresented); configuration extremes (password 0/999999, amount 0/10^12-1, transactions_max_num 0/usize::MAX, terminal id empty/non-numeric/8 digits, currency 0/9999). Time is tokio's paused clock. Oracle: every call returns before one virtual day and does not panic. Duplicate-free enumeration.".into();
+        report.rule = "every public operation x (a) a one-shot silence at every terminal->client packet position (fault-free numbering), (b) a persistent silence at every distinct (exchange kind, packet) point incl. the handshake, (c) a connect that never resolves / always never resolves / is always refused, (d) pairs: a one-shot silence followed by a second silence / close / garbage / connect stall on the retried attempt, and silence on a slow terminal, (f) a garbage / NACK / foreign / unexpected-but-well-formed packet (or a regular reply followed by a close) at every position after which the terminal stays silent and never closes its side, (j) history independence: a persistently stalled read_card / configure takes no longer on an object that recovered from stalls in four earlier calls than on a fresh one, (i) a silence / close / garbage that creeps forward by 1-3 packets with every re-connection (each attempt gets further than the one before, none completes), (h) unsolicited bytes on the idle connection just before the operation (the first byte(s) of a packet and then nothing more with the connection kept open; a complete intermediate status), (g) the cached connection fails at once (idle close / close / NACK / garbage / reply-then-close) and every new connection is refused, stalls, or breaks at one point of its handshake (silence / close / garbage / NACK / wrong serial), (e) finite pauses of 1..61 s at every position and of 3..59 s inside the handshake of a re-connection for read_card_timeout in {0,5,15,30,56,57,58,200}; read_card_timeout 0..255 exhaustively with a terminal that stays silent for exactly its own read-card time-out and then answers 'abort 6C' 100 ms later (must be waited for: NoCardPresented); configuration extremes (password 0/999999, amount 0/10^12-1, transactions_max_num 0/usize::MAX, terminal id empty/non-numeric/8 digits, currency 0/9999). Time is tokio's paused clock. Oracle: every call returns before one virtual day and does not panic. Duplicate-free enumeration.".into();
         report.assumptions = vec!["watchdog = tokio::time::timeout of one virtual day around every public call; it can only fire when the client is parked without a timer of its own or its own timers exceed a day".into(), "only a collapsed (too short) read-card timeout is judged; the effective timeout is recorded".into()];
     }
     let base_cfg = ClientCfg { max_tx: 1, currency: 826, password: 471199, pre_amount: 3100, serial: "17fd1E3c".into(), ..ClientCfg::default() };
@@ -801,6 +801,46 @@ pub fn run(ctx: &Ctx, id: &str) -> i32 {
                         sc.plan.faults.push(FaultSpec { call: idx, at: at.clone(), kind });
                         run_and_judge(r, id, &sc, idx, &schema, &format!("{op:?}: {first:?} on the cached connection, then {kind:?} at {at:?} of every new connection"), false);
                         r.count("cached_connection_lost_then_broken_terminal_runs", 1);
+                    }
+                }
+            }
+            // (j) the bound does not depend on what the object went through before: a call under a persistent stall takes as
+            //     long on an object that has recovered from stalls / slow answers in four earlier calls as on a fresh one
+            if shard == 4 % threads {
+                for (call_kind, cmd) in [(Call::ReadCard, Cmd::ReadCard), (Call::Configure, Cmd::Initialization)] {
+                    for rc in [0u8, 15] {
+                        let cfg = ClientCfg { read_card_timeout: rc, ..base_cfg.clone() };
+                        let stall_time = |history: usize| -> (u64, Scenario, Trace) {
+                            let mut sc = Scenario { cfg: cfg.clone(), ..Scenario::default() };
+                            sc.sim_serial = cfg.serial.clone();
+                            sc.sim_terminal_id = cfg.terminal_id.clone();
+                            for k in 0..history {
+                                sc.calls.push(call_kind.clone());
+                                // recovered stalls: one silence, then a late but proper answer
+                                sc.plan.faults.push(FaultSpec { call: 2 + k, at: At::PointOnce(cmd, 1), kind: FaultKind::Silence });
+                                if cmd == Cmd::ReadCard {
+                                    sc.plan.push(2 + k, cmd, ExPlan::default());
+                                    sc.plan.push(2 + k, cmd, ExPlan { result: ExResult::Abort(0x6c), silent_ms: rc as u64 * 1000 + 1500, ..ExPlan::default() });
+                                }
+                            }
+                            sc.calls.push(call_kind.clone());
+                            sc.plan.faults.push(FaultSpec { call: 2 + history, at: At::Point(cmd, 1), kind: FaultKind::Silence });
+                            let tr = run_scenario(&sc, &schema);
+                            let ms = tr.calls.iter().find(|c| c.index == 2 + history).map(|c| c.virtual_ms).unwrap_or(u64::MAX);
+                            (ms, sc, tr)
+                        };
+                        let (fresh, _, _) = stall_time(0);
+                        let (seasoned, sc, tr) = stall_time(4);
+                        r.case_enumerated(true);
+                        r.count("history_independence_runs", 1);
+                        r.note("stalled_call_seconds_fresh_vs_seasoned", &format!("{:?} rc={rc}: {} vs {}", cmd, fresh / 1000, seasoned / 1000));
+                        if matches!(tr.calls.last().map(|c| &c.result), Some(CallResult::Hang)) || seasoned > fresh + fresh / 4 + 5_000 {
+                            r.violation(
+                                &format!("C10 {}: the time a stalled call takes grows with the object's history", if cmd == Cmd::ReadCard { "read_card" } else { "configure" }),
+                                &format!("read_card_timeout {rc}: under a persistent stall the call takes {} s on a fresh object and {} s after four earlier calls that recovered from a stall", fresh / 1000, seasoned / 1000),
+                                case_json(&sc, &tr),
+                            );
+                        }
                     }
                 }
             }
